@@ -14,6 +14,9 @@
 (*      the cause; on sethdr / sendhdr / settrl, bit 0 = through the        *)
 (*      context helpers (grpc.SetHeader(ctx, ..)), bit 1 = the handler      *)
 (*      recycles the metadata.MD object of its previous metadata op.  The   *)
+(*      Every sender likewise keeps using its MESSAGE object: it alters it  *)
+(*      as soon as the send has returned, before the peer may look at what  *)
+(*      it received (Delivered / HandsOverSendersMessage below).  The       *)
 (*      handler always keeps writing to the MD objects it has handed over,  *)
 (*      the client to the ones it was handed: metadata is copied across the *)
 (*      boundary like messages are, so none of that shows anywhere.         *)
@@ -44,6 +47,15 @@
 (*   - the request metadata when the handler may not have started          *)
 (***************************************************************************)
 EXTENDS Integers, Sequences, FiniteSets, TLC
+
+\* Deviation (refuted in MC, WrapMC_handover.cfg): a send hands the sender's own message object
+\* over and the receiver reads it when its receive completes.  Every sender goes on using its
+\* message once the send has returned (it writes Altered into it before the peer gets to look),
+\* so with the deviation the receiver gets the altered message.  Over a connection a message
+\* is what it was when the send returned: FALSE for the specification proper.
+CONSTANT HandsOverSendersMessage
+Altered == 95
+Delivered(v) == IF HandsOverSendersMessage THEN Altered ELSE v
 
 NoMD == [a |-> <<>>, b |-> <<>>]
 AnyMD == [a |-> <<-1>>, b |-> <<-1>>]          \* "not asserted"
@@ -76,7 +88,7 @@ New(shape, req) ==
    resp |-> 0, ssent |-> <<>>, inflight |-> <<>>, creq |-> <<>>,
    ret |-> FALSE, rcode |-> "", rv |-> 0,
    cx |-> "no", retAtCx |-> FALSE, entAtCx |-> FALSE, sawCx |-> FALSE, waited |-> FALSE, hlate |-> {}, sfl |-> FALSE, hcx |-> 0, cause |-> FALSE,
-   pend |-> "-", term |-> NoTerm, src |-> "-",
+   pend |-> "-", term |-> NoTerm, src |-> "-", mdk |-> 0,
    msgs |-> <<>>, hdrs |-> <<>>, trls |-> <<>>, srecv |-> <<>>]
 
 ----------------------------------------------------------------------------
@@ -151,15 +163,16 @@ ServerOp(st, e, i) ==
     CASE e.s = "-" -> st
       [] e.s = "recv" ->
            IF e.c \in {"open", "invoke", "send"}
-           THEN [st EXCEPT !.srecv = Append(@, [i |-> i, v |-> e.v]), !.ent = TRUE]
+           THEN [st EXCEPT !.srecv = Append(@, [i |-> i, v |-> IF e.c = "invoke" THEN e.v ELSE Delivered(e.v)]), !.ent = TRUE]
+                \* (Invoke returns when the call is over: its request cannot be reused during the call)
            ELSE [st EXCEPT !.srecv = Append(@, [i |-> i, v |-> 0]), !.seof = TRUE]     \* after the half-close
       [] e.s = "sethdr" -> [st EXCEPT !.hs = AddMD(@, e.md)]
       [] e.s = "sendhdr" -> Flush([st EXCEPT !.hs = AddMD(@, e.md)])
       [] e.s = "settrl" -> [st EXCEPT !.tr = AddMD(@, e.md)]
       [] e.s = "send" ->
            LET f == [Flush(st) EXCEPT !.ssent = Append(@, e.v)] IN
-           IF Single(st.shape) THEN [f EXCEPT !.resp = e.v]
-           ELSE [f EXCEPT !.msgs = Append(@, e.v), !.pend = "-", !.hknown = TRUE]
+           IF Single(st.shape) THEN [f EXCEPT !.resp = Delivered(e.v)]
+           ELSE [f EXCEPT !.msgs = Append(@, Delivered(e.v)), !.pend = "-", !.hknown = TRUE]
       [] e.s = "return" ->
            LET f == [Flush(st) EXCEPT !.ret = TRUE, !.rcode = e.code, !.rv = e.v] IN
            IF st.shape \in {"unary", "ustream"} /\ e.code = "OK" THEN [f EXCEPT !.resp = e.v, !.ssent = Append(@, e.v)] ELSE f
@@ -167,7 +180,7 @@ ServerOp(st, e, i) ==
   ELSE
     \* the client is gone: the only thing that can still reach it is what was sent while
     \* its context ended
-    CASE e.c \in {"cancel", "deadline"} /\ e.s = "send" -> [Flush(st) EXCEPT !.inflight = Append(@, e.v), !.ssent = Append(@, e.v)]
+    CASE e.c \in {"cancel", "deadline"} /\ e.s = "send" -> [Flush(st) EXCEPT !.inflight = Append(@, Delivered(e.v)), !.ssent = Append(@, e.v)]
       [] e.c \in {"cancel", "deadline"} /\ e.s # "wait" -> st
       \* seeing the context end on the server proves that the client side has processed a
       \* cancellation (that is what resets the stream); a deadline also fires on the server's own timer
@@ -184,7 +197,7 @@ ServerOp(st, e, i) ==
       [] e.s = "settrl" -> [st EXCEPT !.tr = AddMD(@, e.md)]
       [] e.s = "send" ->
            LET f == [st EXCEPT !.hlate = @ \cup {st.hs}, !.ssent = Append(@, e.v), !.sfl = TRUE] IN
-           IF Single(st.shape) THEN [f EXCEPT !.resp = e.v] ELSE [f EXCEPT !.inflight = Append(@, e.v)]
+           IF Single(st.shape) THEN [f EXCEPT !.resp = Delivered(e.v)] ELSE [f EXCEPT !.inflight = Append(@, Delivered(e.v))]
       \* a handler that returns without having seen the end of the context may still get its
       \* status through before the client side has processed the cancellation
       [] e.s = "return" ->
@@ -214,12 +227,15 @@ RECURSIVE RunFrom(_, _, _)
 RunFrom(states, steps, i) ==
   IF i > Len(steps) THEN states
   ELSE RunFrom(UNION { Step(st, steps[i], i) : st \in states }, steps, i + 1)
-Run(shape, req, steps) == RunFrom({New(shape, req)}, steps, 1)
+\* mdk, the metadata of the caller's context: 0 outgoing metadata (x-req = req), 1 none at all,
+\* 2 only INCOMING metadata (the caller is itself a handler passing its context on): a server
+\* sees the caller's outgoing metadata and nothing else
+Run(shape, req, mdk, steps) == RunFrom({[New(shape, req) EXCEPT !.mdk = mdk]}, steps, 1)
 
 \* the transcript of a final state; reqmd is asserted when the handler certainly started
 Transcript(st) ==
   [msgs |-> st.msgs, term |-> st.term, hdrs |-> st.hdrs, trls |-> st.trls, srecv |-> st.srecv,
-   reqmd |-> IF st.ent /\ (st.cx = "no" \/ st.entAtCx) THEN st.req ELSE -2]
+   reqmd |-> IF st.ent /\ (st.cx = "no" \/ st.entAtCx) THEN (IF st.mdk = 0 THEN st.req ELSE 0) ELSE -2]
 
 ----------------------------------------------------------------------------
 (* Grammar of well-matched scripts.  D = [vals, mds, codes, xs, causes, maxc, maxs, dl] *)
